@@ -75,7 +75,8 @@ type runner struct {
 	nSyncs    int
 	settleMs  int
 	stopped   bool
-	tickRound uint64 // round of the last tick delivered to the run loop
+	tickRound uint64        // round of the last tick delivered to the run loop
+	syncGoal  func() uint64 // how far a sync can get (nil: the current round)
 
 	lastPrev, lastSig []byte
 	lastTarget        int64
@@ -135,8 +136,12 @@ func (r *runner) settle(expEmits int, expSync bool, sends0, syncs0 int) {
 		r.w.Client.mu.Lock()
 		honest := r.w.Client.syncAnswer != nil
 		r.w.Client.mu.Unlock()
-		if honest { // the peers serve the chain up to the current round
-			waitFor(func() bool { return r.w.Head() >= r.w.CurrentRound() }, 4*time.Second)
+		if honest { // the peers serve the chain up to the current round (or up to what they hold)
+			goal := r.w.CurrentRound()
+			if r.syncGoal != nil {
+				goal = r.syncGoal()
+			}
+			waitFor(func() bool { return r.w.Head() >= goal }, 4*time.Second)
 		}
 	}
 	// short stability window for anything the hints above do not cover (sync manager's peer loop)
